@@ -473,9 +473,9 @@ class PointJacobi(object):
     def _add(self, X1, Y1, Z1, X2, Y2, Z2, p):
         """add two points, select fastest method."""
         if not Y1 or not Z1:
-            return X2, Y2, Z2
+            return X2 % p, Y2 % p, Z2 % p
         if not Y2 or not Z2:
-            return X1, Y1, Z1
+            return X1 % p, Y1 % p, Z1 % p
         if Z1 == Z2:
             if Z1 == 1:
                 return self._add_with_z_1(X1, Y1, X2, Y2, p)
@@ -680,7 +680,9 @@ class PointJacobi(object):
     def __neg__(self):
         """Return negated point."""
         x, y, z = self.__coords
-        return PointJacobi(self.__curve, x, -y, z, self.__order)
+        return PointJacobi(
+            self.__curve, x, -y % self.__curve.p(), z, self.__order
+        )
 
 
 class Point(object):
